@@ -34,6 +34,9 @@ type Ctx struct {
 	Level string
 	Start time.Time
 
+	Shard, NShards int    // set in worker processes
+	curFile        string // where a worker records the case it is about to run
+
 	mu          sync.Mutex
 	evals       int64
 	classes     map[string]struct{}
